@@ -241,6 +241,13 @@ def run(ctx: Ctx) -> None:
             continue
         stores = _table_stores(ctx, reg, m, [], 0)
         tables = {t for t, _, _ in stores}
+        if len(tables) == 1:
+            # a registration method that files the codec in one table only: written by type and not found by reference (or the reverse)
+            n6 += 1
+            rep.bad("C17.R6", m.qname, f"{name}: the codec is filed both by its types and by its reference", m.loc(), [f"{m.loc()}: only `{sorted(tables)[0]}` is updated",
+                    "a value written by this codec records its reference in the metadata; fetch_blob then asks the registry for that reference: PROTOCOL_NOT_FOUND for a blob that was just stored"],
+                    "one-table", what=f"{name} files a codec in one of the two tables only: what it writes cannot be read back")
+            continue
         if len(tables) < 2:
             continue
         n6 += 1
